@@ -40,6 +40,7 @@ type algCtx struct {
 	cls   map[string]*ast.FuncDecl
 	memo  map[string]*uint8
 	probs []string
+	depth int
 }
 
 const (
@@ -87,6 +88,19 @@ func compose(f, a, b uint8) uint8 {
 	return out
 }
 
+func (a *algCtx) irrelevant(e ast.Expr, env map[types.Object]uint8) bool {
+	touches := false
+	ast.Inspect(e, func(x ast.Node) bool {
+		if id, ok := x.(*ast.Ident); ok {
+			if _, ok := env[a.info.Uses[id]]; ok {
+				touches = true
+			}
+		}
+		return true
+	})
+	return !touches
+}
+
 func (a *algCtx) problem(format string, args ...any) {
 	a.probs = append(a.probs, fmt.Sprintf(format, args...))
 }
@@ -115,6 +129,7 @@ func (a *algCtx) evalFunc(name string) (uint8, bool) {
 	iters := map[types.Object]uint8{} // iterator variable -> table of the set it enumerates
 	t, ok := a.execList(fd, fd.Body.List, env, iters)
 	if !ok {
+		delete(a.memo, name)
 		return 0, false
 	}
 	a.memo[name] = &t
@@ -153,8 +168,55 @@ func (a *algCtx) evalExpr(fd *ast.FuncDecl, e ast.Expr, env map[types.Object]uin
 			}
 		}
 	}
+	if call, ok := e.(*ast.CallExpr); ok {
+		if t, ok, handled := a.callHelper(fd, call, env); handled {
+			return t, ok
+		}
+	}
 	a.problem("unsupported set expression %s", exprStr(e))
 	return 0, false
+}
+
+// callHelper interprets a call of an unexported function of the repository: its set-valued
+// parameters are bound to the tables of the arguments, its body is interpreted in place.
+func (a *algCtx) callHelper(fd *ast.FuncDecl, call *ast.CallExpr, env map[types.Object]uint8) (uint8, bool, bool) {
+	cf := calleeOf(a.info, call)
+	if cf == nil || cf.Exported() {
+		return 0, false, false
+	}
+	hd := a.c.declOf(cf.Origin())
+	if hd == nil || hd.Body == nil {
+		return 0, false, false
+	}
+	if a.depth >= 3 {
+		a.problem("helper nesting too deep at %s", a.c.pos(call.Pos()))
+		return 0, false, true
+	}
+	hp := paramObjs(a.info, hd)
+	henv := map[types.Object]uint8{}
+	for i, arg := range call.Args {
+		if i >= len(hp) {
+			break
+		}
+		if o := identObj(a.info, ast.Unparen(arg)); o != nil {
+			if t, ok := env[o]; ok {
+				henv[hp[i]] = t
+			}
+			continue
+		}
+		if _, isCall := ast.Unparen(arg).(*ast.CallExpr); isCall && isCollectionLike(hp[i].Type()) {
+			saved := len(a.probs)
+			if t, ok := a.evalExpr(fd, arg, env); ok {
+				henv[hp[i]] = t
+			} else {
+				a.probs = a.probs[:saved]
+			}
+		}
+	}
+	a.depth++
+	t, ok := a.execList(hd, hd.Body.List, henv, map[types.Object]uint8{})
+	a.depth--
+	return t, ok, true
 }
 
 // execList interprets statements; returns the table of the returned set.
@@ -197,6 +259,9 @@ func (a *algCtx) execList(fd *ast.FuncDecl, list []ast.Stmt, env map[types.Objec
 				iters[obj] = t
 				continue
 			}
+			if obj != nil && (!ifaceMethodNames(obj.Type())["GetIterator"] || (!isCollectionLike(obj.Type()) && a.irrelevant(rhs[0], env))) {
+				continue // a collator, a notation, a size: not a set
+			}
 			t, ok := a.evalExpr(fd, rhs[0], env)
 			if !ok {
 				return 0, false
@@ -233,6 +298,19 @@ func (a *algCtx) execList(fd *ast.FuncDecl, list []ast.Stmt, env map[types.Objec
 			}
 		case *ast.ForStmt:
 			// for it.HasNext() { v := it.GetNext(); [if [!]Y.ContainsValue(v)] { R.AddValue(v) | R.RemoveValue(v) } }
+			if st.Init != nil {
+				if lhs, rhs, ok := multiDefStmt(st.Init); ok && len(lhs) == 1 {
+					if rx, mname, _, ok := methodCall(ast.Unparen(rhs)); ok && mname == "GetIterator" {
+						if t, ok := a.evalExpr(fd, rx, env); ok {
+							iters[identObj(a.info, lhs[0])] = t
+						}
+					}
+				}
+			}
+			if st.Cond == nil {
+				a.problem("loop without a condition at %s", a.c.pos(st.Pos()))
+				return 0, false
+			}
 			itObj := findIterCond(a.info, st.Cond, "HasNext")
 			src, ok := iters[itObj]
 			if itObj == nil || !ok {
@@ -240,12 +318,24 @@ func (a *algCtx) execList(fd *ast.FuncDecl, list []ast.Stmt, env map[types.Objec
 				return 0, false
 			}
 			var elem types.Object
+			cond := uint8(0b1111)
 			for _, bs := range st.Body.List {
 				if lhs, rhs, ok := multiDefStmt(bs); ok && len(lhs) == 1 && methodCallOn(a.info, ast.Unparen(rhs), itObj, "GetNext") {
 					elem = identObj(a.info, lhs[0])
 					continue
 				}
-				if !a.elementStmt(fd, bs, elem, src, 0b1111, env) {
+				// if C { continue }: the rest of the body runs under not C
+				if is, ok := bs.(*ast.IfStmt); ok && is.Init == nil && is.Else == nil && len(is.Body.List) == 1 {
+					if br, ok := is.Body.List[0].(*ast.BranchStmt); ok && br.Tok == token.CONTINUE && br.Label == nil {
+						cnd, ok := a.memberCond(fd, is.Cond, elem, env)
+						if !ok {
+							return 0, false
+						}
+						cond &^= cnd
+						continue
+					}
+				}
+				if !a.elementStmt(fd, bs, elem, src, cond, env) {
 					return 0, false
 				}
 			}
@@ -378,6 +468,60 @@ func operandsNotMutated(info *types.Info, fd *ast.FuncDecl) string {
 	return bad
 }
 
+// classFunctionStateless: the class function, and the private methods of its class that it
+// reaches through its receiver, write no field of the class object (a class function that
+// keeps something from one call for the next is not a function of its operands).
+func classFunctionStateless(c *Ctx, info *types.Info, cls *types.Named, fd *ast.FuncDecl) string {
+	ms := c.methodsOf(cls)
+	cg := c.sameTypeCallGraph(cls)
+	name := fd.Name.Name
+	scope := []*ast.FuncDecl{fd}
+	seen := map[string]bool{name: true}
+	for work := []string{name}; len(work) > 0; {
+		n := work[0]
+		work = work[1:]
+		for callee := range cg[n] {
+			if !seen[callee] && !ast.IsExported(callee) && ms[callee] != nil {
+				seen[callee] = true
+				scope = append(scope, ms[callee])
+				work = append(work, callee)
+			}
+		}
+	}
+	bad := ""
+	for _, sfd := range scope {
+		recv := recvObj(info, sfd)
+		inspectNoLit(sfd.Body, func(x ast.Node) bool {
+			mark := func(l ast.Expr) {
+				l = ast.Unparen(l)
+				if ix, ok := l.(*ast.IndexExpr); ok {
+					l = ast.Unparen(ix.X)
+				}
+				if se, ok := l.(*ast.SelectorExpr); ok && selectorField(info, se) != nil && recvRooted(info, se.X, recv) {
+					bad = fmt.Sprintf("%s writes the class field %s at %s: the class function keeps state from one call to the next", sfd.Name.Name, se.Sel.Name, c.pos(l.Pos()))
+				}
+			}
+			switch st := x.(type) {
+			case *ast.AssignStmt:
+				for _, l := range st.Lhs {
+					mark(l)
+				}
+			case *ast.IncDecStmt:
+				mark(st.X)
+			}
+			return true
+		})
+	}
+	return bad
+}
+
+func pureClassFunction(c *Ctx, info *types.Info, cls *types.Named, fd *ast.FuncDecl) string {
+	if b := operandsNotMutated(info, fd); b != "" {
+		return b
+	}
+	return classFunctionStateless(c, info, cls, fd)
+}
+
 func resultFreshNoAlias(c *Ctx, fd *ast.FuncDecl) string {
 	fa := c.flow()
 	sf := fa.byFD[fd]
@@ -422,14 +566,14 @@ func runC15(c *Ctx, r *Rec) {
 		t, ok := a.evalFunc(name)
 		switch {
 		case !ok:
-			r.undecided("D1-truth-table", construct, c.pos(fd.Pos()), "the body is outside the vocabulary of the set-algebra interpreter: "+strings.Join(dedup(a.probs), "; "))
+			r.skip("D1-truth-table", construct, c.pos(fd.Pos()), "the body is outside the vocabulary of the set-algebra interpreter: "+strings.Join(dedup(a.probs), "; "))
 		case tblString(t) != want[name]:
 			o := r.fail("D1-truth-table", construct, c.pos(fd.Pos()), fmt.Sprintf("membership table over (in first, in second) = (00,01,10,11) is %s, required %s: %s", tblString(t), want[name], tblDiff(t, want[name])))
 			o.Witness = tblString(t)
 		default:
 			r.ok("D1-truth-table", construct, c.pos(fd.Pos()), "membership table (00,01,10,11) = "+tblString(t))
 		}
-		r.check(operandsNotMutated(info, fd) == "", "D2-pure", construct, c.pos(fd.Pos()), "no mutating call on an operand", operandsNotMutated(info, fd))
+		r.check(pureClassFunction(c, info, cls, fd) == "", "D2-pure", construct, c.pos(fd.Pos()), "no mutating call on an operand, no write to the class object", pureClassFunction(c, info, cls, fd))
 		bad := resultFreshNoAlias(c, fd)
 		r.check(bad == "", "D2-fresh", construct, c.pos(fd.Pos()), "result created in the call, no operand storage inside", bad)
 		// D3 collator: every set created in the function is created with an operand's collator
@@ -457,6 +601,30 @@ func runC15(c *Ctx, r *Rec) {
 			return true
 		})
 		r.check(badC == "", "D3-collator", construct, c.pos(fd.Pos()), "every set built here uses an operand's collator (or comes from a sibling that does)", badC)
+	}
+	// the result's ordered storage is only changed through the set's own searched insert/remove
+	if set, _ := c.impl("collection", "SetLike"); set != nil {
+		storage := c.fieldOfIface(set, "collection", "ListLike")
+		var searchFn *types.Func
+		sms := c.methodsOf(set)
+		for _, name := range sortedKeys(sms) {
+			if ast.IsExported(name) {
+				continue
+			}
+			sig := c.funcOf(sms[name]).Type().(*types.Signature)
+			if sig.Results().Len() == 2 && isIntegerType(sig.Results().At(0).Type()) && isBoolType(sig.Results().At(1).Type()) && sig.Params().Len() == 1 {
+				searchFn = c.funcOf(sms[name])
+			}
+		}
+		if storage != nil && searchFn != nil {
+			var fds []*ast.FuncDecl
+			cm := c.methodsOf(cls)
+			for _, name := range sortedKeys(cm) {
+				fds = append(fds, cm[name])
+			}
+			_, _, n := checkStorageSites(c, r, "D1-ordered-storage", info, fds, storage, searchFn)
+			r.count("class functions reaching into set storage", n)
+		}
 	}
 	r.floor("D1-truth-table", 4)
 	r.floor("D2-pure", 4)
@@ -645,49 +813,15 @@ func runC16(c *Ctx, r *Rec) {
 	// ---- D1 Concatenate
 	if fd := c.methodsOf(lcls)["Concatenate"]; fd != nil {
 		construct := c.fdName(fd)
-		params := paramObjs(info, fd)
-		recv := recvObj(info, fd)
-		var seq []string
-		var result types.Object
-		bad := ""
-		for _, s := range fd.Body.List {
-			switch st := s.(type) {
-			case *ast.DeclStmt, *ast.AssignStmt:
-				if lhs, rhs, ok := multiDefStmt(st); ok && len(lhs) == 1 {
-					if rx, mname, call, ok := methodCall(ast.Unparen(rhs)); ok && isObj(info, rx, recv) && mname == "Make" && len(call.Args) == 0 {
-						result = identObj(info, lhs[0])
-						continue
-					}
-				}
-				bad = "unsupported statement at " + c.pos(s.Pos())
-			case *ast.ExprStmt:
-				if rx, mname, call, ok := methodCall(st.X); ok && result != nil && isObj(info, rx, result) && mname == "AppendValues" && len(call.Args) == 1 {
-					for i, p := range params {
-						if isObj(info, call.Args[0], p) {
-							seq = append(seq, fmt.Sprint(i))
-						}
-					}
-					continue
-				}
-				bad = "unsupported statement at " + c.pos(s.Pos())
-			case *ast.ReturnStmt:
-				if len(st.Results) != 1 || !isObj(info, st.Results[0], result) {
-					bad = "the function does not return the list it built"
-				}
-			default:
-				bad = "unsupported statement at " + c.pos(s.Pos())
-			}
-		}
+		seq, why := segmentsOf(c, info, fd)
 		switch {
-		case bad != "" && !strings.HasPrefix(bad, "the function"):
-			r.undecided("D1-concatenate", construct, c.pos(fd.Pos()), "outside the vocabulary of the sequence interpreter: "+bad)
-		case bad != "":
-			r.fail("D1-concatenate", construct, c.pos(fd.Pos()), bad)
+		case why != "":
+			r.skip("D1-concatenate", construct, c.pos(fd.Pos()), "outside the vocabulary of the segment interpreter: "+why)
 		default:
-			r.check(strings.Join(seq, ",") == "0,1", "D1-concatenate", construct, c.pos(fd.Pos()), "segments appended to a fresh list: [first, second]",
-				"the segments appended are operands ["+strings.Join(seq, ",")+"], required [0,1] (first then second, each once)")
+			r.check(strings.Join(seq, ",") == "p0,p1", "D1-concatenate", construct, c.pos(fd.Pos()), "the result is a fresh list into which [first, second] are folded, each once, in this order",
+				"the result is built from the operand segments ["+strings.Join(seq, ",")+"], required [p0,p1] (all of first, then all of second, each once; `?` marks a traversal that can stop early)")
 		}
-		r.check(operandsNotMutated(info, fd) == "", "D4-pure", construct, c.pos(fd.Pos()), "no mutating call on an operand", operandsNotMutated(info, fd))
+		r.check(pureClassFunction(c, info, lcls, fd) == "", "D4-pure", construct, c.pos(fd.Pos()), "no mutating call on an operand, no write to the class object", pureClassFunction(c, info, lcls, fd))
 		b := resultFreshNoAlias(c, fd)
 		r.check(b == "", "D4-fresh", construct, c.pos(fd.Pos()), "result created in the call", b)
 	} else {
@@ -697,83 +831,15 @@ func runC16(c *Ctx, r *Rec) {
 	// ---- D2 Merge
 	if fd := cms["Merge"]; fd != nil {
 		construct := c.fdName(fd)
-		params := paramObjs(info, fd)
-		recv := recvObj(info, fd)
-		bad := ""
-		var result types.Object
-		// base: result := c.MakeFromSequence(first)
-		for _, s := range fd.Body.List {
-			if lhs, rhs, ok := multiDefStmt(s); ok && len(lhs) == 1 {
-				if rx, mname, call, ok := methodCall(ast.Unparen(rhs)); ok && isObj(info, rx, recv) && mname == "MakeFromSequence" && len(call.Args) == 1 && len(params) == 2 && isObj(info, call.Args[0], params[0]) {
-					result = identObj(info, lhs[0])
-				}
-			}
+		seq, why := segmentsOf(c, info, fd)
+		switch {
+		case why != "":
+			r.skip("D2-merge", construct, c.pos(fd.Pos()), "outside the vocabulary of the segment interpreter: "+why)
+		default:
+			r.check(strings.Join(seq, ",") == "p0,p1", "D2-merge", construct, c.pos(fd.Pos()), "the result is a fresh catalog into which every association of first, then every association of second is set (key, value), in their order",
+				"the result is built from the operand segments ["+strings.Join(seq, ",")+"], required [p0,p1] (all of first, then all of second so that second wins on a shared key; `?` marks a traversal that can stop early)")
 		}
-		if result == nil {
-			bad = "the result does not start as a copy of the first operand (MakeFromSequence(first))"
-		}
-		loops := loopsIn(fd.Body)
-		if bad == "" && len(loops) != 1 {
-			bad = fmt.Sprintf("%d loops, required one loop over the second operand", len(loops))
-		}
-		if bad == "" {
-			fs, isFor := loops[0].(*ast.ForStmt)
-			itObj := types.Object(nil)
-			if isFor && fs.Cond != nil {
-				itObj = findIterCond(info, fs.Cond, "HasNext")
-			}
-			// the iterator enumerates the second operand
-			okSrc := false
-			if itObj != nil {
-				ast.Inspect(fd.Body, func(x ast.Node) bool {
-					if lhs, rhs, ok := multiDef(x); ok && len(lhs) == 1 && identObj(info, lhs[0]) == itObj {
-						if rx, mname, _, ok := methodCall(ast.Unparen(rhs)); ok && mname == "GetIterator" && isObj(info, rx, params[1]) {
-							okSrc = true
-						}
-					}
-					return true
-				})
-			}
-			if !okSrc {
-				bad = "the loop does not enumerate the second operand in its own order"
-			} else {
-				// body: result.SetValue(A.GetKey(), A.GetValue()) with A = it.GetNext(), unconditional
-				found := false
-				for _, bs := range fs.Body.List {
-					if es, ok := bs.(*ast.ExprStmt); ok {
-						if rx, mname, call, ok := methodCall(es.X); ok && isObj(info, rx, result) && mname == "SetValue" && len(call.Args) == 2 {
-							kSrc, vSrc := resolveInit(info, fd, call.Args[0]), resolveInit(info, fd, call.Args[1])
-							krx, kn, _, ok1 := methodCall(kSrc)
-							vrx, vn, _, ok2 := methodCall(vSrc)
-							if ok1 && ok2 && kn == "GetKey" && vn == "GetValue" && identObj(info, krx) != nil && identObj(info, krx) == identObj(info, vrx) {
-								if init := resolveInit(info, fd, krx); methodCallOn(info, init, itObj, "GetNext") {
-									found = true
-								}
-							}
-						}
-					}
-				}
-				if !found {
-					bad = "the loop body does not unconditionally SetValue(assoc.GetKey(), assoc.GetValue()) on the result for the association it visits"
-				}
-			}
-		}
-		if bad == "" {
-			// the function returns the result
-			ast.Inspect(fd.Body, func(x ast.Node) bool {
-				if rs, ok := x.(*ast.ReturnStmt); ok && (len(rs.Results) != 1 || !isObj(info, rs.Results[0], result)) {
-					bad = "the function does not return the catalog it built"
-				}
-				return true
-			})
-		}
-		if bad == "" && len(loops) == 1 {
-			if _, s := coveringLoop(c, info, loops[0]); s != "" {
-				bad = s
-			}
-		}
-		r.check(bad == "", "D2-merge", construct, c.pos(fd.Pos()), "copy of first, then SetValue(key, value) for every association of second in order", bad)
-		r.check(operandsNotMutated(info, fd) == "", "D4-pure", construct, c.pos(fd.Pos()), "no mutating call on an operand", operandsNotMutated(info, fd))
+		r.check(pureClassFunction(c, info, ccls, fd) == "", "D4-pure", construct, c.pos(fd.Pos()), "no mutating call on an operand, no write to the class object", pureClassFunction(c, info, ccls, fd))
 		b := resultFreshNoAlias(c, fd)
 		r.check(b == "", "D4-fresh", construct, c.pos(fd.Pos()), "result created in the call", b)
 	} else {
@@ -793,7 +859,7 @@ func runC16(c *Ctx, r *Rec) {
 			}
 		}
 		if keysP == nil || catP == nil {
-			r.undecided("D3-extract", construct, c.pos(fd.Pos()), "cannot bind the catalog and keys parameters")
+			r.skip("D3-extract", construct, c.pos(fd.Pos()), "cannot bind the catalog and keys parameters")
 		} else {
 			deps := depClosure(info, fd)
 			// find the SetValue on the result inside a loop over keys
@@ -816,14 +882,17 @@ func runC16(c *Ctx, r *Rec) {
 				})
 			}
 			if setCall == nil {
-				bad = "no SetValue on the result inside a loop over the requested keys (in their order)"
+				bad = "skip: no SetValue on the result inside a loop over the requested keys"
 			} else {
 				keyObj := identObj(info, setCall.Args[0])
 				// control conditions between the loop and the call
 				var conds []ast.Expr
-				for _, n := range pathTo(loop.Body, setCall) {
-					if is, ok := n.(*ast.IfStmt); ok && containsNode(is.Body, setCall) {
-						conds = append(conds, is.Cond)
+				g := newFG(info, fd.Body)
+				if pt, ok := g.locate(setCall); ok {
+					for _, ec := range g.edgeConds(pt) {
+						if containsNode(loop.Body, ec.cond) {
+							conds = append(conds, ec.cond)
+						}
 					}
 				}
 				dependsOn := func(e ast.Expr, target types.Object) bool {
@@ -872,23 +941,24 @@ func runC16(c *Ctx, r *Rec) {
 				vSrc := resolveInit(info, fd, setCall.Args[1])
 				if rx, mname, call, ok := methodCall(vSrc); !ok || mname != "GetValue" || !isObj(info, rx, catP) || len(call.Args) != 1 || identObj(info, call.Args[0]) != keyObj {
 					if bad == "" {
-						bad = "the value stored is not catalog.GetValue(key) for the same key"
+						bad = "skip: the value stored is not recognisably catalog.GetValue(key) for the same key"
 					}
 				}
 			}
 			if bad == "" && loop != nil {
-				if _, s := coveringLoop(c, info, loop); s != "" {
+				if _, s := coveringLoop(c, info, loop); s != "" && !strings.HasPrefix(s, "a continue") {
 					bad = "the loop over the requested keys can stop early: " + s
 				}
 			}
-			r.check(bad == "", "D3-extract", construct, c.pos(fd.Pos()), "keys visited in order; SetValue(key, catalog.GetValue(key)) only under a presence test on (key, catalog)", bad)
+			r.verdict("D3-extract", construct, c.pos(fd.Pos()), "keys visited in order; SetValue(key, catalog.GetValue(key)) only under a presence test on (key, catalog)", bad)
 		}
-		r.check(operandsNotMutated(info, fd) == "", "D4-pure", construct, c.pos(fd.Pos()), "no mutating call on an operand", operandsNotMutated(info, fd))
+		r.check(pureClassFunction(c, info, ccls, fd) == "", "D4-pure", construct, c.pos(fd.Pos()), "no mutating call on an operand, no write to the class object", pureClassFunction(c, info, ccls, fd))
 		b := resultFreshNoAlias(c, fd)
 		r.check(b == "", "D4-fresh", construct, c.pos(fd.Pos()), "result created in the call", b)
 	} else {
 		r.undecided("D3-extract", "collection.catalogClass.Extract", "", "not found")
 	}
+	checkCellsNotShared(c, r, "D4-cells-not-shared")
 	r.floor("D4-pure", 3)
 	r.floor("D4-fresh", 3)
 }
